@@ -2,7 +2,7 @@
    Statements only; proofs are in Proofs/Hash*.v.  Vocabulary: X_run chunks = Init, one Update per
    chunk, Final (Model/HashModel.v); X_spec = the standard's digest (Spec/HashSpec.v); a result
    HOk d excludes the outcomes HOOB (access outside a buffer), HFuel (loop bound) and HReject. *)
-Require Import LV.Common.Bytes LV.Gen.Gen_hash LV.Spec.HashSpec LV.Model.HashModel LV.Model.HmacModel LV.Proofs.HashProofs.
+Require Import LV.Common.Bytes LV.Common.HashWords LV.Gen.Gen_hash LV.Spec.HashSpec LV.Model.HashModel LV.Model.HmacModel LV.Proofs.HashProofs.
 Local Open Scope Z_scope.
 
 (* the constants found in the C sources (regenerated on every run) are the standard ones *)
@@ -59,3 +59,96 @@ Theorem sha512_update_app :
       sha512_done c12 = HOk (sha512_spec (msg ++ a ++ b)).
 Proof. exact sha512_update_app_lemma. Qed.
 Print Assumptions sha512_update_app.
+
+(* ----------------------------------------- SHA-1 ----------------------------------------- *)
+(* no length hypothesis: count[0]/count[1] wrap modulo 2^64 (carry included) exactly as the
+   length field of the padding does *)
+Theorem sha1_any_split :
+  forall chunks, sha1_run chunks = HOk (sha1_spec (concat chunks)).
+Proof. exact sha1_any_split_lemma. Qed.
+Print Assumptions sha1_any_split.
+
+Theorem sha1_oneshot_is_standard :
+  forall data, sha1_oneshot data = HOk (sha1_spec data).
+Proof. exact sha1_oneshot_lemma. Qed.
+Print Assumptions sha1_oneshot_is_standard.
+
+Theorem sha1_update_app :
+  forall c msg a b, sha1_reached c msg ->
+    exists c2 c12,
+      sha1_feed (sha1_feed (HOk c) a) b = HOk c2 /\ sha1_feed (HOk c) (a ++ b) = HOk c12 /\
+      sha1_equiv c2 c12 /\ sha1_final c2 = sha1_final c12 /\
+      sha1_final c12 = HOk (sha1_spec (msg ++ a ++ b)).
+Proof. exact sha1_update_app_lemma. Qed.
+Print Assumptions sha1_update_app.
+Example sha1_update_app_hyp : sha1_reached sha1_init [].
+Proof. exists []. split; reflexivity. Qed.
+
+(* ------------------------------------------ MD5 ------------------------------------------ *)
+Theorem md5_any_split :
+  forall chunks, md5_run chunks = HOk (md5_spec (concat chunks)).
+Proof. exact md5_any_split_lemma. Qed.
+Print Assumptions md5_any_split.
+
+Theorem md5_oneshot_is_standard :
+  forall data, md5_oneshot data = HOk (md5_spec data).
+Proof. exact md5_oneshot_lemma. Qed.
+Print Assumptions md5_oneshot_is_standard.
+
+Theorem md5_update_app :
+  forall c msg a b, md5_reached c msg ->
+    exists c2 c12,
+      md5_feed (md5_feed (HOk c) a) b = HOk c2 /\ md5_feed (HOk c) (a ++ b) = HOk c12 /\
+      md5_equiv c2 c12 /\ md5_final c2 = md5_final c12 /\
+      md5_final c12 = HOk (md5_spec (msg ++ a ++ b)).
+Proof. exact md5_update_app_lemma. Qed.
+Print Assumptions md5_update_app.
+
+(* ------------------------------------------ HMAC ----------------------------------------- *)
+(* crypto_HMAC over the library's hash_alg tables is RFC 2104 HMAC of the standard digest, for
+   every key length (longer than a block: hashed first) and every text *)
+Theorem hmac_sha1_rfc2104 :
+  forall key text, hmac_sha1 key text = HOk (hmac_spec sha1_spec 64 key text).
+Proof. exact hmac_sha1_lemma. Qed.
+Print Assumptions hmac_sha1_rfc2104.
+
+Theorem hmac_sha256_rfc2104 :
+  forall key text, 8 * (zlen key + zlen text + 256) < 2 ^ 64 ->
+    hmac_sha256 key text = HOk (hmac_spec sha256_spec 64 key text).
+Proof. exact hmac_sha256_lemma. Qed.
+Print Assumptions hmac_sha256_rfc2104.
+
+Theorem hmac_sha512_rfc2104 :
+  forall key text, 8 * (zlen key + zlen text + 256) < 2 ^ 64 ->
+    hmac_sha512 key text = HOk (hmac_spec sha512_spec 128 key text).
+Proof. exact hmac_sha512_lemma. Qed.
+Print Assumptions hmac_sha512_rfc2104.
+Example hmac_hyp : 8 * (zlen (repeat 7 200) + zlen [1; 2; 3] + 256) < 2 ^ 64.
+Proof. reflexivity. Qed.
+
+(* ------------------------------------ public SHA-1 API ----------------------------------- *)
+(* xmpp_sha1_new / update ... / final / to_string(buffer of slen bytes): NULL when the buffer is
+   shorter than 41 bytes, otherwise the 40 lower-case hex characters of the standard digest *)
+Theorem sha1_api_hex :
+  forall chunks slen,
+    xmpp_sha1_run chunks slen =
+      HOk (if slen <? 41 then None else Some (hex_of_bytes false (sha1_spec (concat chunks)))).
+Proof. exact sha1_api_hex_lemma. Qed.
+Print Assumptions sha1_api_hex.
+
+Theorem sha1_api_oneshot :
+  forall data,
+    xmpp_sha1 data = HOk (Some (hex_of_bytes false (sha1_spec data))) /\
+    xmpp_sha1_digest data = HOk (sha1_spec data).
+Proof. exact xmpp_sha1_lemma. Qed.
+Print Assumptions sha1_api_oneshot.
+
+(* the specification's own SHA-2 tables are the roots of the first primes (FIPS 180-4 4.2.2/4.2.3/5.3.3/5.3.5) *)
+Theorem spec_sha2_tables_are_fips :
+  forallb is_prime_b first_primes = true /\
+  sha256_Kspec = map (frac_root 3 32) (firstn 64 first_primes) /\
+  sha256_H0 = map (frac_root 2 32) (firstn 8 first_primes) /\
+  sha512_Kspec = map (frac_root 3 64) first_primes /\
+  sha512_H0 = map (frac_root 2 64) (firstn 8 first_primes).
+Proof. exact spec_sha2_tables_from_primes. Qed.
+Print Assumptions spec_sha2_tables_are_fips.
